@@ -17,7 +17,8 @@ from naunet.reactions.kromereaction import KROMEReaction
 TRUST = ["the zero outside the window comes from the template's initialiser `k[NREACTIONS] = {0.0}`; its presence and "
          "position are checked textually here (compiled execution is part of the C05 channel-C runs)"]
 
-BOUNDS = [-9999.0, -1.0, 0.0, 5.0, 10.0, 10.5, 100.0, 300.0, 1000.0, 9999.0, 41000.0, 1e5]
+BOUNDS = [-9999.0, -1.0, 0.0, 5.0, 10.0, 10.5, 100.0, 300.0, 1000.0, 9999.0, 41000.0, 1e5,
+          11604.525, 1234567.0, 0.1 + 0.2, 2.7255, 1e-3, 123456.789, 1e99, 157807.13, 5e-324, 99999.99999]
 
 
 def guard_active(g, T):
@@ -38,7 +39,8 @@ def probes(bounds):
     out = set()
     for b in bounds:
         b = Fraction(b)
-        out |= {b, b - Fraction(1, 1000), b + Fraction(1, 1000), b / 2, b * 2}
+        out |= {b, b - Fraction(1, 1000), b + Fraction(1, 1000), b / 2, b * 2,
+                b * (1 - Fraction(1, 10**9)), b * (1 + Fraction(1, 10**9)), b * (1 - Fraction(1, 10**15)), b * (1 + Fraction(1, 10**15))}
     out |= {Fraction(1, 100), Fraction(10**6)}
     return sorted(t for t in out if t > 0)
 
@@ -52,7 +54,7 @@ def gen_desc(rng):
     desc["tmax"] = {i: rng.choice(BOUNDS) for i in range(n)}
     # adjacent piecewise fits of one reaction
     if rng.random() < 0.6:
-        bs = sorted(rng.sample([5.0, 10.0, 50.0, 300.0, 1000.0, 5000.0, 41000.0], rng.randint(2, 5)))
+        bs = sorted(rng.sample([5.0, 10.0, 50.0, 300.0, 1000.0, 5000.0, 41000.0, 11604.525, 1234567.0, 2.7255, 123456.789], rng.randint(2, 5)))
         base = desc["reactions"][0]
         start = len(desc["reactions"])
         for a, b in zip(bs, bs[1:]):
